@@ -143,6 +143,12 @@ def main(ctx, replay=None):
                 return rng.uniform(-mag, mag, size)
             vols = [VolumeData(float(val()), float(val()), float(val()),
                                [QPointData(tuple(float(x) for x in rng.uniform(-1, 1, 3)), [float(x) for x in val(np_)]) for _ in range(nq)]) for _ in range(nv)]
+            if n % 3 == 1:
+                # as real files have it: the first q-point is the zone centre, coordinates exactly (0, 0, 0), and its three lowest
+                # frequencies are small numbers of either sign (numerical noise of the acoustic branches) - data like any other
+                for vd in vols:
+                    small = [float(x) for x in rng.uniform(-0.95, 0.95, 3)]
+                    vd.q_points[0] = QPointData((0.0, 0.0, 0.0), small + list(vd.q_points[0].modes[3:]))
             data = QHAInputData(nv, nq, np_, int(rng.integers(1, 5)), np_ // 3, [(tuple(float(x) for x in rng.uniform(-1, 1, 3)), float(rng.uniform(0, 50))) for _ in range(nq)], vols)
             f = tmp / "rt.txt"
             ctx.count({"rt": [nv, nq, np_], "mag": mag})
